@@ -91,7 +91,7 @@ def bookkeeping_violations(case, obs):
                         chunk_labels.append(next(iter(ls)))
                 for L in chunk_labels:
                     if dflt is not None and L != dflt:
-                        sig = "labels:default-label-zero" if dflt == 0 else "labels:default-label-ignored"
+                        sig = ("labels:default-label-zero:" if dflt == 0 else "labels:default-label-ignored:") + ts
                         out.append((sig, f"trial {k}: move {r} configured default_label={dflt} but new atoms got {L}"))
                     if dflt is None:
                         old = {x for x in b["labels"][r] if x >= 0}
